@@ -59,6 +59,11 @@ ASSUMPTIONS = [
     "the venue subscribes what the request names (a symbol it does not list is refused) and streams every listed "
     "market under its own symbol",
     "Gate.io futures/perpetual/option trade amount: sign as delivered or absolute value are both accepted (DESIGN 5.4)",
+    "exchange times are stated with the full precision the venue's wire format carries and compared EXACTLY (ns): "
+    "integer ms (Binance, OKX, Bybit, Gate.io futures, Bitfinex), RFC 3339 with ms (BitMEX '2023-02-18T09:27:59.701Z'), "
+    "and with a non-zero sub-millisecond part where the format has one: Kraken seconds with six decimals "
+    "('1534614057.321597'), Coinbase RFC 3339 with microseconds ('2014-11-07T08:19:27.028459Z'), Gate.io spot "
+    "create_time_ms with four decimals ('1606292218213.4578'); stated instants are multiples of 1/64 s there (exact in f64)",
     "Binance spot book-ticker messages carry no exchange time: the event time of that route is not constrained",
     "DynamicStreams::init itself (sockets) is not executed: the (ExchangeId, SubKind) arms it dispatches to are, "
     "and the check fails as a tool error if that list and the route table differ",
@@ -220,6 +225,13 @@ def validate(ctx, trace_path, label, verbose=False):
         cls = re.sub(r"[^A-Za-z+]+", "-", d.split(":")[0])[:48].strip("-")
         sig = "%s/%s:anomaly:%s" % (route_of(line), line["fl"], cls)
         desc = "%s (%s): %s on %s [%s, line %d]" % (route_of(line), line["fl"], d, json.dumps({k: line[k] for k in ("a", "S", "off", "m", "fs")}), label, n)
+        if sig not in seen and line["a"] == "Message":
+            seen.add(sig)
+            try:  # what the venue sent (best effort)
+                det = details(ctx, route_of(line), line["fl"], scenario_of(seg))
+                desc += " | venue sent %s" % json.dumps([x for x in det if x["a"] == "Message"][-1]["detail"].get("venue_messages"))
+            except Exception as e:
+                desc += " (no details: %s)" % e
         ctx.violation(sig, desc, {"route": route_of(line), "flavour": line["fl"], "scenario": scenario_of(seg)})
     n, bad, truncated = ctx.tlc_trace("Trace_" + MODULE, "Trace_" + MODULE + ".cfg", clean)
     for b in bad:
